@@ -1963,3 +1963,40 @@ class PoolObj:
 @ext("multiprocessing.Pool")
 def _pool(it, n=None, **kw):
     return PoolObj(n)
+
+
+# ----------------------------------------------------------------------------- numpy.digitize
+class DigitizeInfo:
+    def __init__(self, f, x, bins):
+        self.f, self.x, self.bins = f, x, bins
+
+    def contract(self, k, j):
+        """instance at element k and edge j:  (digitize(x)[k] > j)  <=>  x[k] >= bins[j]   for 0 <= j < len(bins)  (increasing bins, right=False)"""
+        n = zi(self.bins.shape[0])
+        return z3.Implies(z3.And(zi(j) >= 0, zi(j) < n), (self.f(zi(k)) > zi(j)) == (zr(self.x.get([k])) >= zr(self.bins.get([j]))))
+
+    def range(self, k):
+        return z3.And(self.f(zi(k)) >= 0, self.f(zi(k)) <= zi(self.bins.shape[0]))
+
+
+@ext("numpy.digitize")
+def _digitize(it, x, bins, right=False):
+    if right is not False:
+        raise Unsupported("digitize(right=True)")
+    X, Bn = as_arr(it, x), as_arr(it, bins)
+    if X.ndim != 1 or Bn.ndim != 1:
+        raise Unsupported("digitize of non-1d arrays")
+    f = z3.Function(fresh_name("digitize"), z3.IntSort(), z3.IntSort())
+    res = Arr([X.shape[0]], lambda idx: f(zi(idx[0])), "int")
+    res.digitize = DigitizeInfo(f, X.frozen(), Bn.frozen())
+    if not hasattr(it.ctx, "digitizes"):
+        it.ctx.digitizes = []
+    it.ctx.digitizes.append(res.digitize)
+    it.ctx.notes.append("numpy.digitize: bins must be increasing (here: numpy.linspace with positive step when hmax > hmin)")
+    return res
+
+
+@ext("numpy.finfo")
+def _finfo(it, dt=None):
+    o = Obj(None, {"eps": Fraction(1, 2 ** 52), "tiny": Fraction(1, 2 ** 1022), "max": Fraction(2 ** 1023) * (2 - Fraction(1, 2 ** 52)), "resolution": Fraction(1, 10 ** 15)})
+    return o
